@@ -17,7 +17,7 @@ ASSUMPTIONS = ["ownership of a kind = the package that defines its entity class 
                "iq results/errors are exercised through C08's request/reply path; encryption-specific stanzas through C03",
                "with the encryption layers present outgoing messages are judged at the probe below the protocol group"]
 REQUIRED = ["outgoing_cases", "incoming_cases", "expected_one_observed_one", "expected_zero_observed_zero", "selections", "kinds_outgoing", "kinds_incoming",
-            "incoming_newer_shape", "incoming_newer_shape_ok", "encrypted_incoming", "encrypted_incoming_ok", "encrypted_incoming:first-message", "encrypted_incoming:later-message", "encrypted_incoming:group-with-distribution", "encrypted_incoming:group-sender-key-only", "encrypted_incoming:group-pairwise-only", "with_enc", "without_enc", "send_handlers_seen", "direction_switches", "reply_inside_send_cases", "reply_cases", "reply_one_entity", "reply_with_others_outstanding", "reply:error", "reply:result"]
+            "unserved_retry_receipts", "unserved_retry_receipts_ok", "incoming_newer_shape", "incoming_newer_shape_ok", "encrypted_incoming", "encrypted_incoming_ok", "encrypted_incoming:first-message", "encrypted_incoming:later-message", "encrypted_incoming:group-with-distribution", "encrypted_incoming:group-sender-key-only", "encrypted_incoming:group-pairwise-only", "with_enc", "without_enc", "send_handlers_seen", "direction_switches", "reply_inside_send_cases", "reply_cases", "reply_one_entity", "reply_with_others_outstanding", "reply:error", "reply:result"]
 TIMEOUT = {"quick": 600, "thorough": 7200}
 
 INCOMING_FIXTURES = ["message_text", "message_media_contact", "message_media_downloadable_audio", "message_media_downloadable_image",
@@ -395,6 +395,26 @@ def run(spec, acc):
                 acc.case(["i", name, sname, enc, k], nontrivial=True)
                 check_incoming(acc, kit, name, cls, tree, sel, enc, w)
         reply_rounds(acc, kit, sel, enc, sname, seed, spec["draws"] * 4)
+        # a retry receipt for a message nobody below has to serve (no encryption layers, or the id is not one of the messages
+        # waiting in the send layer): it reaches the application like any other receipt
+        for k in range(spec["draws"]):
+            rr = gen.rng(seed, ID, "retryrc/%s/%s/%d" % (sname, enc, k))
+            st = catalogue.HAND["retry_receipt"][2](rr)
+            acc.count("unserved_retry_receipts")
+            acc.case(["i", "retry_receipt", sname, enc, k], nontrivial=True)
+            kit.clear()
+            w_ = {"dir": "in", "kind": "retry_receipt:unserved", "selection": sname, "enc": enc, "draw": k, "stanza": treeeq.describe(st, 4)}
+            try:
+                kit.inject(st)
+            except Exception as e:  # noqa
+                acc.violation("incoming-raises:retry_receipt:%s" % type(e).__name__, "an incoming retry receipt raised %r" % (e,), w_)
+                continue
+            got = [e for e in kit.top.received if getattr(e, "getTag", lambda: None)() == "receipt"]
+            if len(got) != 1 or got[0].getId() != st[1]["id"] or got[0].getType() != "retry":
+                acc.violation("incoming-count:retry_receipt:%d-for-1" % min(len(got), 2), "a retry receipt that nothing below had to serve produced %d receipt entities at the top (%s)"
+                              % (len(got), [(e.getId(), e.getType()) for e in got][:2]), w_)
+            else:
+                acc.count("unserved_retry_receipts_ok")
         if enc:
             encrypted_incoming(acc, kit, sel, sname, seed)
     acc.counters["kinds_incoming"] = len(inc)
